@@ -205,7 +205,7 @@ func (p *Prog) callersHold(fn *ssa.Function, lock string, held map[*ssa.Function
 			continue
 		}
 		done[c] = true
-		if strings.HasPrefix(c.Name(), "init") && c.Signature.Recv() == nil {
+		if isPkgInit(c) {
 			continue // package initialisation is single threaded
 		}
 		h := held[c]
@@ -447,7 +447,7 @@ func c11Arch(c *Ctx, p *Prog) {
 			}
 			written := false
 			for _, a := range acc {
-				isInit := a.Fn.Signature.Recv() == nil && strings.HasPrefix(a.Fn.Name(), "init") && a.Fn.Parent() == nil
+				isInit := isPkgInit(a.Fn)
 				if a.Write && !isInit && reach[a.Fn] {
 					written = true
 				}
@@ -464,7 +464,7 @@ func c11Arch(c *Ctx, p *Prog) {
 			// classification
 			allAtomic, allOnce := true, true
 			for _, a := range acc {
-				isInit := a.Fn.Signature.Recv() == nil && strings.HasPrefix(a.Fn.Name(), "init") && a.Fn.Parent() == nil
+				isInit := isPkgInit(a.Fn)
 				if isInit {
 					continue
 				}
@@ -514,7 +514,7 @@ func c11Arch(c *Ctx, p *Prog) {
 			cand := map[string]int{}
 			total := 0
 			for _, a := range acc {
-				isInit := a.Fn.Signature.Recv() == nil && strings.HasPrefix(a.Fn.Name(), "init") && a.Fn.Parent() == nil
+				isInit := isPkgInit(a.Fn)
 				if isInit || a.How == "sync" {
 					continue
 				}
@@ -536,7 +536,7 @@ func c11Arch(c *Ctx, p *Prog) {
 			okAll := true
 			whyG := ""
 			for _, a := range acc {
-				isInit := a.Fn.Signature.Recv() == nil && strings.HasPrefix(a.Fn.Name(), "init") && a.Fn.Parent() == nil
+				isInit := isPkgInit(a.Fn)
 				if isInit || a.How == "sync" {
 					continue
 				}
